@@ -123,6 +123,8 @@ pub fn plan(quick: bool) -> PairPlan {
     lf.extend(weyl_fracs(1, 8));
     let ua = unit_alphabet(&hf, &gaps, &lf, false);
     let ub = unit_alphabet(&hf, &gaps, &lf, true);
+    // thorough: every 2nd / 3rd member (the full product would be ~1e11 exact checks)
+    let (ua, ub): (Vec<[f64; 2]>, Vec<[f64; 2]>) = if quick { (ua, ub) } else { (ua.into_iter().step_by(2).collect(), ub.into_iter().step_by(3).collect()) };
     PairPlan {
         ua,
         ub,
